@@ -70,6 +70,10 @@ impl SecondaryTransaction {
     ) -> StorageResult<Self> {
         // pin a snapshot at version manager
         let pin_version = table.version.pin();
+        #[cfg(feature = "verif")]
+        if update {
+            crate::verif::gate("txn.update.after_pin").await;
+        }
         Ok(Self {
             finished: false,
             mem: None,
@@ -118,6 +122,8 @@ impl SecondaryTransaction {
     }
 
     async fn commit_inner(mut self) -> StorageResult<()> {
+        #[cfg(feature = "verif")]
+        crate::verif::gate("txn.commit.start").await;
         self.flush_rowset().await?;
 
         // flush deletes to disk
@@ -148,13 +154,23 @@ impl SecondaryTransaction {
                     guard.insert(path, Bytes::from(buf));
                 }
                 _ => {
+                    #[cfg(feature = "verif")]
+                    let verif_path = path.clone();
+                    #[cfg(feature = "verif")]
+                    crate::verif::persist("dv.create.pre", &verif_path);
                     let mut file = tokio::fs::OpenOptions::default()
                         .write(true)
                         .create_new(true)
                         .open(path)
                         .await?;
+                    #[cfg(feature = "verif")]
+                    crate::verif::persist("dv.create.post", &verif_path);
                     DeleteVector::write_all(&mut file, &deletes).await?;
+                    #[cfg(feature = "verif")]
+                    crate::verif::persist("dv.write.post", &verif_path);
                     file.sync_data().await?;
+                    #[cfg(feature = "verif")]
+                    crate::verif::persist("dv.fsync.post", &verif_path);
                 }
             }
             dvs.push(DeleteVector::new(dv_id, rowset_id, deletes));
@@ -209,7 +225,11 @@ impl SecondaryTransaction {
         }));
 
         // Commit changeset
+        #[cfg(feature = "verif")]
+        crate::verif::gate("txn.commit.before_changes").await;
         self.version.commit_changes(changeset).await?;
+        #[cfg(feature = "verif")]
+        crate::verif::gate("txn.commit.after_changes").await;
 
         self.finished = true;
 
@@ -327,7 +347,11 @@ impl SecondaryTransaction {
             let directory = self.table.get_rowset_path(rowset_id);
 
             if !self.table.storage_options.disable_all_disk_operation {
+                #[cfg(feature = "verif")]
+                crate::verif::persist("rowset.mkdir.pre", &directory);
                 tokio::fs::create_dir(&directory).await?;
+                #[cfg(feature = "verif")]
+                crate::verif::persist("rowset.mkdir.post", &directory);
             }
 
             self.mem = Some(SecondaryMemRowsetImpl::new(
